@@ -262,7 +262,9 @@ def seed_sweep(n):
     """process-level confirmation used on replay (and once per run as a cheap cross-check): identical digest under n hash seeds"""
     digs = set()
     for seed in list(range(n)) + ["random"]:
-        env = {"PYTHONHASHSEED": str(seed), "PATH": "/usr/bin:/bin", "PYTHONDONTWRITEBYTECODE": "1"}
+        from lib.chutil import fresh_env
+
+        env = fresh_env(seed)
         p = subprocess.run([sys.executable, "-c", SEED_SCRIPT], capture_output=True, text=True, env=env)
         if p.returncode != 0:
             return {"status": "inconclusive", "detail": p.stderr[-400:]}
